@@ -164,6 +164,22 @@ NOPATH(wasi_snapshot_preview1__path_readlink, path_readlink, (0, d, p1, l1, p2, 
 NOPATH(wasi_snapshot_preview1__path_rename, path_rename_old, (0, d, p1, l1, d, p2, l2))
 NOPATH(wasi_snapshot_preview1__fd_readdir, fd_readdir, (0, d, p1, l1, q, rp))
 
+/* ---------- fd_readdir refused on its first call (non-zero cookie), then any further use of the descriptor: no directory stream
+ * that has been closed is left behind in the table (the ENV model flags every use of a stream after closedir) ---------- */
+void h_readdir_refused_then_used(void) {
+    ND(size_t, n); ND(U32, d); ND(U32, bp); ND(U32, up); ND(U64, cookie); ND(int, then_close); U32 r1, r2;
+    mk_table_sym(n, n, d); mem_init(); g_ev_dirent_count = 0;
+    ASSUME(d < n && (g_kind_d == K_PREOPEN || g_kind_d == K_FILE)); g_sym[d].dir = 0;     /* has a path, no stream yet */
+    ASSUME(bp <= GMEM - 32 && up <= GMEM - 4 && cookie != 0);
+    ev_reset();
+    r1 = wasi_snapshot_preview1__fd_readdir(0, d, bp, 24, cookie, up);
+    OBL(r1 != WASI_ERRNO_SUCCESS, "fd_readdir: a first call with a cookie that was never handed out is refused");
+    OBL(g_sym[d].dir == 0 || ((vh_dirstream*)g_sym[d].dir)->open, "fd_readdir: a refused call leaves no closed directory stream in the descriptor table");
+    if (then_close) r2 = wasi_snapshot_preview1__fd_close(0, d); else r2 = wasi_snapshot_preview1__fd_readdir(0, d, bp, 24, 0, up);
+    (void)r2;
+    CANARY("readdir refused returns");
+}
+
 /* ---------- fd_prestat_get / fd_prestat_dir_name on a pre-opened directory ---------- */
 void h_prestat(void) {
     ND(unsigned, n); ND(U32, d); ND(U32, rp); ND(U32, pp); ND(U32, plen); ND(U32, k); U32 r1, r2; size_t len; U8 old[GMEM];
